@@ -4,6 +4,7 @@
    `run evs` = fold_left step evs init.  `fresh evs` = no RetryInvalidate / Continue / Rerun event in evs. *)
 From Coq Require Import List Arith Bool ZArith Permutation Sorted.
 Require Import Mistral.Model.Items Mistral.Proofs.ItemsProofs Mistral.Gen.ItemsLock.
+Require Import Mistral.Model.ItemsFixed Mistral.Proofs.ItemsFixedProofs.
 Import ListNotations.
 
 (* ---- for ALL event lists (any item count, any concurrency, retry and rerun included) ---- *)
@@ -150,6 +151,63 @@ Theorem C07_retry_concurrency_witness :
   tst t' = TSuccess /\ map idx (result_execs (execs t')) = [0; 1; 1] /\ result (execs t') = [103; 104; 105]%Z.
 Proof. exact retry_concurrency_witness. Qed.
 Print Assumptions C07_retry_concurrency_witness.
+
+(* ---- the proposed fix of F4 / F7 (Model/ItemsFixed.v: _get_next_indexes = the indexes below count that have
+        neither an accepted nor an unfinished execution): the refuted statements hold, for ALL event lists ---- *)
+
+Theorem C07_fixed_index_once : forall evs, NoDup (map idx (filter p_live (execs (run_fx evs)))).
+Proof. exact fx_index_once_always. Qed.
+Print Assumptions C07_fixed_index_once.
+
+Theorem C07_fixed_running_le_concurrency : forall evs c,
+  conc (run_fx evs) = Some c -> running (execs (run_fx evs)) <= c.
+Proof. exact fx_running_le_concurrency. Qed.
+Print Assumptions C07_fixed_running_le_concurrency.
+
+Theorem C07_fixed_index_lt_count : forall evs e, In e (execs (run_fx evs)) -> idx e < nitems (run_fx evs).
+Proof. exact fx_index_lt_count. Qed.
+Print Assumptions C07_fixed_index_lt_count.
+
+(* SUCCESS / ERROR, after any history with retries and reruns: nothing RUNNING, every item has a counted
+   execution, and only one *)
+Theorem C07_fixed_complete_covers_all_items : forall evs,
+  tst (run_fx evs) = TSuccess \/ tst (run_fx evs) = TError ->
+  running (execs (run_fx evs)) = 0 /\
+  (forall i, i < nitems (run_fx evs) -> exists e, In e (execs (run_fx evs)) /\ acc e = true /\ idx e = i) /\
+  (forall e1 e2, In e1 (execs (run_fx evs)) -> In e2 (execs (run_fx evs)) ->
+     acc e1 = true -> acc e2 = true -> idx e1 = idx e2 -> e1 = e2).
+Proof. exact fx_complete_covers_all_items. Qed.
+Print Assumptions C07_fixed_complete_covers_all_items.
+
+(* a partial rerun re-executes only the failed items - unconditionally *)
+Theorem C07_fixed_partial_rerun_only_failed : forall evs,
+  tst (run_fx evs) = TError ->
+  started_by (run_fx evs) (step_fx (run_fx evs) (Rerun false)) =
+  take_cap (conc (run_fx evs)) (failed_n (nitems (run_fx evs)) (execs (run_fx evs))).
+Proof. exact fx_partial_rerun_only_failed. Qed.
+Print Assumptions C07_fixed_partial_rerun_only_failed.
+
+Theorem C07_fixed_retry_restarts_all : forall evs,
+  tst (run_fx evs) = TDelayed ->
+  started_by (run_fx evs) (step_fx (run_fx evs) Continue) =
+  take_cap (conc (run_fx evs)) (seq 0 (nitems (run_fx evs))).
+Proof. exact fx_retry_restarts_all. Qed.
+Print Assumptions C07_fixed_retry_restarts_all.
+
+Theorem C07_fixed_result_in_item_order : forall evs,
+  tst (run_fx evs) = TSuccess \/ tst (run_fx evs) = TError ->
+  map idx (result_execs (execs (run_fx evs))) = seq 0 (nitems (run_fx evs)) /\
+  length (result (execs (run_fx evs))) = nitems (run_fx evs).
+Proof. exact fx_result_in_item_order. Qed.
+Print Assumptions C07_fixed_result_in_item_order.
+
+(* the two witnesses behave as the property demands under the fix *)
+Theorem C07_fixed_witnesses :
+  started_by (run_fx witness_F4) (step_fx (run_fx witness_F4) (Rerun false)) = [0] /\
+  (let t := run_fx (witness_F7 ++ [Accept 4 OSuccess 104%Z; Handle 4; Accept 5 OSuccess 105%Z; Handle 5]) in
+   tst t = TSuccess /\ map idx (result_execs (execs t)) = [0; 1; 2]).
+Proof. vm_compute. repeat split; reflexivity. Qed.
+Print Assumptions C07_fixed_witnesses.
 
 (* ---- the atomicity the model assumes for Handle, read off the source by translate/tr_itemslock.py ---- *)
 Theorem C07_handle_atomic :
